@@ -39,7 +39,8 @@ impl Grm { pub uninterp spec fn seof(&self) -> TIdx<$T>;
 #[verifier::external_body] pub struct STable { _x: usize }
 impl STable {
     // dialect: `state_actions(st)` (an iterator over the tokens with a non-error action) as a list
-    #[verifier::external_body] pub fn state_actions_vec(&self, st: StIdx<$T>) -> (r: Vec<TIdx<$T>>) { unimplemented!() }
+    pub uninterp spec fn sacts(&self, st: StIdx<$T>) -> Seq<TIdx<$T>>;
+    #[verifier::external_body] pub fn state_actions_vec(&self, st: StIdx<$T>) -> (r: Vec<TIdx<$T>>) ensures r@ == self.sacts(st) { unimplemented!() }
     pub uninterp spec fn sact(&self, st: StIdx<$T>, t: TIdx<$T>) -> ActionK;
     #[verifier::external_body] pub fn action(&self, st: StIdx<$T>, t: TIdx<$T>) -> (r: ActionK) ensures r == self.sact(st, t) { unimplemented!() }
 }
@@ -71,6 +72,20 @@ pub open spec fn extends(nn: PathFNode, n: PathFNode, r: Repair, c: int) -> bool
     nn.repairs.svals() == seq![RepairMerge::Repair(r)] + n.repairs.svals() && nn.cf == n.cf + c
 }
 
+// the zero-length faulty lexeme an insert of t at node n feeds to the parser, and what makes that insert a neighbour
+pub open spec fn ins_lexeme(p: &Parser, n: &PathFNode, t: TIdx<$T>) -> LexemeT { lx_new(t.0, p.snext(n.laidx as int).sspan().st, 0, true) }
+pub open spec fn ins_possible(this: &CPCTPlus, n: &PathFNode, t: TIdx<$T>) -> bool {
+    t != this.parser.grm.seof() && n.cf + this.parser.scost(t) <= u16::MAX
+        && this.parser.cact_la(Some(ins_lexeme(&this.parser, n, t)), n.laidx, (n.laidx + 1) as usize, n.pstack.s()) > n.laidx
+}
+pub open spec fn ins_at(this: &CPCTPlus, nb: (u16, PathFNode), n: &PathFNode, t: TIdx<$T>) -> bool {
+    extends(nb.1, *n, Repair::InsertTerm(t), this.parser.scost(t) as int)
+        && nb.1.pstack.s() == this.parser.cact_st(Some(ins_lexeme(&this.parser, n, t)), n.laidx, (n.laidx + 1) as usize, n.pstack.s())
+}
+pub open spec fn has_insert(this: &CPCTPlus, nbrs: Seq<(u16, PathFNode)>, from: int, n: &PathFNode, t: TIdx<$T>) -> bool {
+    exists|k: int| from <= k < nbrs.len() && ins_at(this, #[trigger] nbrs[k], n, t)
+}
+
 impl CPCTPlus {
     //@ctx insert/delete/shift: a search node's parse stack is never empty and its position is at most the number of lexemes
     fn insert(&self, n: &PathFNode, nbrs: &mut Vec<(u16, PathFNode)>)
@@ -81,6 +96,8 @@ impl CPCTPlus {
                 &&& final(nbrs)@[k].0 == nn.cf && nn.laidx == n.laidx
                 &&& exists|t: TIdx<$T>| t != self.parser.grm.seof() && extends(nn, *n, Repair::InsertTerm(t), self.parser.scost(t) as int)
             }, // OBL: C06.an_end_of_input_token_is_never_inserted C06.an_insert_costs_its_token_cost_and_consumes_no_input
+            forall|j: int| 0 <= j < self.parser.stable.sacts(n.pstack.s().last()).len() && ins_possible(self, n, #[trigger] self.parser.stable.sacts(n.pstack.s().last())[j])
+                ==> has_insert(self, final(nbrs)@, old(nbrs)@.len() as int, n, self.parser.stable.sacts(n.pstack.s().last())[j]), // OBL: C06.every_token_the_state_has_an_action_for_is_tried_as_an_insert
     {
         //@probe
         //@body file=lrpar/src/lib/cpctplus.rs fn=insert
@@ -90,6 +107,8 @@ impl CPCTPlus {
         let mut ai_: usize = 0;
         while ai_ < acts_.len()
             invariant ai_ <= acts_@.len(), laidx == n.laidx, n.laidx <= self.parser.nlexemes, self.parser.nlexemes < usize::MAX,
+                acts_@ == self.parser.stable.sacts(n.pstack.s().last()),
+                forall|j: int| 0 <= j < ai_ && ins_possible(self, n, #[trigger] acts_@[j]) ==> has_insert(self, nbrs@, old(nbrs)@.len() as int, n, acts_@[j]), // OBL: C06.every_token_the_state_has_an_action_for_is_tried_as_an_insert
                 nbrs@.len() >= old(nbrs)@.len(), forall|k: int| 0 <= k < old(nbrs)@.len() ==> nbrs@[k] == old(nbrs)@[k],
                 forall|k: int| old(nbrs)@.len() <= k < nbrs@.len() ==> {
                     let nn = (#[trigger] nbrs@[k]).1;
@@ -111,8 +130,20 @@ impl CPCTPlus {
         //@rule n=1 `^(\s*)nbrs\.push\(\(nn\.cf, nn\)\);` =>>
                 let ghost nbrs0_ = nbrs@;
                 proof { assert(extends(nn, *n, Repair::InsertTerm(tidx), self.parser.scost(tidx) as int)); }
+                let ghost nn_ = nn;
                 nbrs.push((nn.cf, nn));
-                proof { assert forall|k: int| 0 <= k < nbrs0_.len() implies nbrs@[k] == nbrs0_[k] by { } }
+                proof {
+                    assert forall|k: int| 0 <= k < nbrs0_.len() implies nbrs@[k] == nbrs0_[k] by { }
+                    assert forall|j: int| 0 <= j < ai_ && ins_possible(self, n, #[trigger] acts_@[j]) implies has_insert(self, nbrs@, old(nbrs)@.len() as int, n, acts_@[j]) by {
+                        if j < ai_ - 1 {
+                            let k = choose|k: int| old(nbrs)@.len() <= k < nbrs0_.len() && ins_at(self, #[trigger] nbrs0_[k], n, acts_@[j]);
+                            assert(nbrs@[k] == nbrs0_[k]);
+                        } else {
+                            assert(nbrs@[nbrs@.len() - 1].1 == nn_);
+                            assert(ins_at(self, nbrs@[nbrs@.len() - 1], n, tidx));
+                        }
+                    }
+                }
         //@end
         //@endbody
     }
@@ -121,6 +152,7 @@ impl CPCTPlus {
         requires n.laidx <= self.parser.nlexemes, self.parser.nlexemes < usize::MAX,
         ensures final(nbrs)@.len() >= old(nbrs)@.len(), final(nbrs)@.len() <= old(nbrs)@.len() + 1, forall|k: int| 0 <= k < old(nbrs)@.len() ==> final(nbrs)@[k] == old(nbrs)@[k],
             n.laidx == self.parser.nlexemes ==> final(nbrs)@.len() == old(nbrs)@.len(), // OBL: C06.nothing_is_deleted_at_the_end_of_input
+            n.laidx < self.parser.nlexemes && n.cf + self.parser.scost(self.parser.snext_tidx(n.laidx as int)) <= u16::MAX ==> final(nbrs)@.len() == old(nbrs)@.len() + 1, // OBL: C06.deleting_the_next_lexeme_is_always_a_move
             final(nbrs)@.len() == old(nbrs)@.len() + 1 ==> {
                 let nn = final(nbrs)@.last().1;
                 &&& final(nbrs)@.last().0 == nn.cf && nn.laidx == n.laidx + 1 && nn.pstack.s() == n.pstack.s()
@@ -142,6 +174,9 @@ impl CPCTPlus {
         ensures final(nbrs)@.len() >= old(nbrs)@.len(), final(nbrs)@.len() <= old(nbrs)@.len() + 1, forall|k: int| 0 <= k < old(nbrs)@.len() ==> final(nbrs)@[k] == old(nbrs)@[k],
             // a lexeme that plain parsing can shift always gives a neighbour (also when the stack comes out with the same states)
             self.parser.cact_la(None, n.laidx, (n.laidx + 1) as usize, n.pstack.s()) > n.laidx ==> final(nbrs)@.len() == old(nbrs)@.len() + 1, // OBL: C06.shifting_a_lexeme_is_always_a_move
+            ({ let st1 = self.parser.cact_st(None, n.laidx, (n.laidx + 1) as usize, n.pstack.s());
+               st1 != n.pstack.s() && self.parser.stable.sact(st1.last(), self.parser.snext_tidx(n.laidx as int)) == ActionK::Accept })
+                ==> final(nbrs)@.len() == old(nbrs)@.len() + 1, // OBL: C06.reductions_that_reach_acceptance_are_always_a_move
             final(nbrs)@.len() == old(nbrs)@.len() + 1 ==> {
                 let nn = final(nbrs)@.last().1;
                 &&& final(nbrs)@.last().0 == nn.cf && nn.cf == n.cf // OBL: C06.a_shift_costs_nothing
